@@ -136,6 +136,8 @@ class G:
         d["decorator"] = (not d["buffered"]) and nested_level == 0 and r.random() < 0.15
         d["takes_content"] = nested_level == 0 and r.random() < 0.5
         d["cb_keys"] = ["k1"] if d["takes_content"] and r.random() < 0.5 else []
+        # the body of a call may also declare keyword-only and ** parameters, which the callee fills by keyword
+        d["cb_more"] = r.choice([None, None, "kwonly", "kwargs"]) if d["cb_keys"] else None
         d["cn_names"] = ["nx"] if d["takes_content"] and r.random() < 0.3 else []
         d["nested"] = []
         if nested_level == 0 and r.random() < 0.3:
@@ -172,6 +174,10 @@ class G:
         content = [d for d in cdefs if d["takes_content"]]
         if in_def is not None and in_def.get("takes_content") and k < 0.3:
             passed = [(kk, ("lit", "B%d" % self.uid()) if r.random() < 0.5 else ("var", r.choice(avail))) for kk in in_def["cb_keys"]]
+            if in_def.get("cb_more") == "kwonly":
+                passed.append(("k9", ("lit", "K%d" % self.uid())))
+            elif in_def.get("cb_more") == "kwargs":
+                passed.append(("xtra", ("lit", "X%d" % self.uid())))
             out = [("CB", passed)]
             if in_def["cn_names"] and r.random() < 0.5:
                 out.append(("CN", "nx"))
@@ -203,8 +209,11 @@ class G:
             nested = []
             if d["cn_names"]:
                 nested.append({"name": "nx", "sig": [], "body": [("T", "<nx:"), ("V", r.choice(avail)), ("T", ">")], "nested": []})
-            body = self.nodes(depth + 1, cdefs, avail + d["cb_keys"], in_def, None)
-            return [("CC", d["name"], args, list(d["cb_keys"]), body, nested, style)]
+            more = {"kwonly": (["*", "k9"], ["k9"]), "kwargs": (["**kwb"], ["kwb"])}.get(d.get("cb_more"), ([], []))
+            body = self.nodes(depth + 1, cdefs, avail + d["cb_keys"] + more[1], in_def, None)
+            if more[1]:
+                body = body[:-1] + [("V", more[1][0])] + body[-1:]   # the extra parameter is read in the body
+            return [("CC", d["name"], args, list(d["cb_keys"]) + more[0], body, nested, style)]
         if k < 0.82 and depth < self.maxdepth:
             return [("IF", r.choice(["flag1", "flag0"]), self.nodes(depth + 1, cdefs, avail, in_def, None, simple))]
         if k < 0.9 and depth < self.maxdepth:
